@@ -43,6 +43,7 @@ pub struct Shared {
     pub events: Vec<Val>,             // dispatch log: (thread, event id, ring marker)
     pub mem: Option<GM>,
     pub update_memory_calls: u64,
+    pub snapshot: Vec<(u64, u64)>,   // the regions the handle resolved to when update_memory was last called
     pub acked_features: Vec<u64>,
     pub event_idx: Vec<bool>,
     pub backend_reqs: u64,
@@ -156,7 +157,9 @@ impl<V: VringT<GM> + Clone + Send + Sync + 'static> VhostUserBackendMut for Tb<V
         self.sh.lock().unwrap().event_idx.push(enabled);
     }
     fn update_memory(&mut self, mem: GM) -> std::io::Result<()> {
+        let snap: Vec<(u64, u64)> = mem.memory().iter().map(|r| (r.start_addr().0, r.len())).collect();
         let mut s = self.sh.lock().unwrap();
+        s.snapshot = snap;
         s.mem = Some(mem);
         s.update_memory_calls += 1;
         Ok(())
@@ -361,6 +364,41 @@ impl<V: VringT<GM> + Clone + Send + Sync + 'static> Run<V> {
                 };
                 vres(r)
             }
+            "set_vring_kick_nofd" => {
+                // SET_VRING_KICK with the "no descriptor" bit (polling mode): the Frontend API cannot produce it, so the
+                // message is written on the frontend's own socket while no other request is in flight
+                use std::os::unix::io::AsRawFd as _;
+                let fd = self.fe.as_raw_fd();
+                let mut m = vec![];
+                m.extend_from_slice(&12u32.to_le_bytes());
+                m.extend_from_slice(&9u32.to_le_bytes());
+                m.extend_from_slice(&8u32.to_le_bytes());
+                m.extend_from_slice(&((g(0) & 0xff) | 0x100).to_le_bytes());
+                let w = unsafe { libc::write(fd, m.as_ptr() as *const libc::c_void, m.len()) };
+                if w != m.len() as isize {
+                    Val::s("err")
+                } else {
+                    // the acknowledgement (REPLY_ACK negotiated) or end-of-stream
+                    let mut r = [0u8; 20];
+                    let mut got = 0usize;
+                    let mut tv = libc::timeval { tv_sec: 1, tv_usec: 0 };
+                    unsafe { libc::setsockopt(fd, libc::SOL_SOCKET, libc::SO_RCVTIMEO, &mut tv as *mut _ as *const libc::c_void, std::mem::size_of::<libc::timeval>() as u32) };
+                    while got < 20 {
+                        let k = unsafe { libc::read(fd, r[got..].as_mut_ptr() as *mut libc::c_void, 20 - got) };
+                        if k <= 0 {
+                            break;
+                        }
+                        got += k as usize;
+                    }
+                    tv.tv_sec = 0;
+                    unsafe { libc::setsockopt(fd, libc::SOL_SOCKET, libc::SO_RCVTIMEO, &mut tv as *mut _ as *const libc::c_void, std::mem::size_of::<libc::timeval>() as u32) };
+                    if got == 20 && r[12..20] == [0u8; 8] {
+                        Val::s("ok")
+                    } else {
+                        Val::s("err")
+                    }
+                }
+            }
             "set_vring_enable" => vres(self.fe.set_vring_enable(g(0) as usize, g(1) != 0)),
             "set_log_base" => {
                 let region = VhostUserDirtyLogRegion { mmap_size: g(0), mmap_offset: g(1), mmap_handle: self.fdt.get(g(2)) };
@@ -490,6 +528,10 @@ impl<V: VringT<GM> + Clone + Send + Sync + 'static> Run<V> {
                 }
             }
             "panics" => n(crate::PANICS.load(std::sync::atomic::Ordering::SeqCst) - self.panics0),
+            "snapshot" => {
+                let s = self.sh.lock().unwrap();
+                Val::L(s.snapshot.iter().map(|(a, l)| Val::L(vec![n(*a), n(*l)])).collect())
+            }
             "backend_log" => {
                 let s = self.sh.lock().unwrap();
                 Val::L(vec![
@@ -515,6 +557,7 @@ fn run_with<V: VringT<GM> + Clone + Send + Sync + 'static>(cfg: &[Val], steps: &
         events: vec![],
         mem: None,
         update_memory_calls: 0,
+        snapshot: vec![],
         acked_features: vec![],
         event_idx: vec![],
         backend_reqs: 0,
@@ -595,7 +638,7 @@ fn run_with<V: VringT<GM> + Clone + Send + Sync + 'static>(cfg: &[Val], steps: &
         let control = !matches!(
             kind.as_str(),
             "kick" | "close_evfd" | "read_call" | "add_listener" | "fire_listener" | "queue_state" | "add_used" | "signal" | "write_mem" | "read_mem" | "regions" | "par_write"
-                | "backend_log" | "panics" | "proxy_probe" | "guest_write" | "guest_read" | "file_size"
+                | "backend_log" | "snapshot" | "panics" | "proxy_probe" | "guest_write" | "guest_read" | "file_size"
         );
         if control {
             let _ = run.fe.get_features();
